@@ -42,6 +42,9 @@ type image struct {
 	heavy    bool // large image: sample selectors instead of trying all
 	pristine bool
 	synth    bool // built by synth.go
+	// built by bpm.go: the manifests must parse and PCR0_DATA must be measurable
+	manifests bool
+	onlyIntel bool // skip the walker/selectors part (same FFS layout as the bundled image)
 }
 
 type visited struct {
@@ -1066,6 +1069,7 @@ func (r *run) pcr0data(st *types.State, bi *biosimage.BIOSImage, acc *intelbiosi
 	}
 	svn := make([]byte, 2)
 	binary.LittleEndian.PutUint16(svn, uint16(acm.GetTXTSVN()))
+	r.pcr0digests(st, actions)
 	n := 0
 	for _, a := range actions {
 		ext, ok := a.(*tpmactions.TPMExtend)
@@ -1097,7 +1101,7 @@ func (r *run) pcr0data(st *types.State, bi *biosimage.BIOSImage, acc *intelbiosi
 				continue
 			}
 			g := own[0]
-			if g.Offset+g.Length > uint64(len(img)) || !bytes.Equal(img[g.Offset:g.Offset+g.Length], want[i]) || len(want[i]) == 0 {
+			if g.Offset+g.Length > uint64(len(img)) || !bytes.Equal(img[g.Offset:g.Offset+g.Length], want[i]) || (len(want[i]) == 0 && i != 5) {
 				ctx.OracleFail(-1, fmt.Sprintf("PCR0_DATA %s: bytes at %#x+%#x are not the parsed field (%d bytes)", label[i], g.Offset, g.Length, len(want[i])), "pkg/bootflow/steps/intelsteps/measure_pcr0_data.go", in)
 				continue
 			}
@@ -1107,5 +1111,111 @@ func (r *run) pcr0data(st *types.State, bi *biosimage.BIOSImage, acc *intelbiosi
 	}
 	if n == 0 {
 		ctx.Count("pcr0data-no-extend-actions")
+	}
+}
+
+// pcr0digests: where the ibbDigest reference of each measured algorithm points, against the
+// harness' own decoding of the Boot Policy Manifest's bytes (FIT entry -> "__IBBS__" element
+// -> digest list by the documented layout): the hash buffer of the FIRST list entry with
+// that algorithm, wherever it is in the list.
+func (r *run) pcr0digests(st *types.State, actions types.Actions) {
+	ctx := r.ctx
+	bg := context.Background()
+	img := r.im.data
+	site := "pkg/bootflow/steps/intelsteps/measure_pcr0_data.go:MeasurePCR0DATA.Actions"
+	base := fourGiB - r.size
+	ent, bpmAddr, ok := fitSlot(img, 0x0C)
+	if !ok || bpmAddr < base {
+		ctx.Count("pcr0digests-no-bpm-entry")
+		return
+	}
+	bpmLen := uint64(img[ent+8]) | uint64(img[ent+9])<<8 | uint64(img[ent+10])<<16
+	bpmOff := bpmAddr - base
+	if bpmOff+bpmLen > r.size {
+		ctx.Count("pcr0digests-bpm-outside")
+		return
+	}
+	first, entries, ok := seLayout(img[bpmOff : bpmOff+bpmLen])
+	if !ok {
+		ctx.Count("pcr0digests-undecodable")
+		return
+	}
+	shape := make([]string, len(entries))
+	shapeTxt := make([]string, len(entries))
+	for i, e := range entries {
+		shape[i] = gal.Pair(gal.U(uint64(e.alg)), gal.U(e.len))
+		shapeTxt[i] = fmt.Sprintf("%#x/%d", e.alg, e.len)
+	}
+	measured := []uint16{0x04, 0x0B} // SHA1, SHA256: the banks PCR0_DATA is extended into
+	obs := make([]string, len(measured))
+	in := func(alg uint16) map[string]interface{} {
+		return map[string]interface{}{"image": r.im.name, "bpm_at": bpmOff, "bpm_len": bpmLen, "digest_list": shapeTxt,
+			"first_entry_at": bpmOff + first, "alg": alg, "bpm_hex": fmt.Sprintf("%x", img[bpmOff:bpmOff+bpmLen])}
+	}
+	type res struct {
+		alg uint16
+		rg  *pkgbytes.Range
+		why string
+	}
+	var results []res
+	for i, alg := range measured {
+		obs[i] = "None"
+		var found *pkgbytes.Range
+		why := ""
+		for _, a := range actions {
+			ext, ok := a.(*tpmactions.TPMExtend)
+			if !ok || uint16(ext.HashAlgo) != alg {
+				continue
+			}
+			d, err := ext.DataSource.Data(bg, st)
+			if err != nil || d == nil || len(d.References) != 6 || len(d.References[5].Ranges) != 1 {
+				why = fmt.Sprintf("unexpected PCR0_DATA structure (err=%v)", err)
+				break
+			}
+			if _, isPhys := d.References[5].AddressMapper.(biosimage.PhysMemMapper); !isPhys {
+				why = "ibbDigest reference is not a physical-address reference"
+				break
+			}
+			rg := d.References[5].Ranges[0]
+			found = &rg
+			break
+		}
+		if found != nil {
+			obs[i] = "(Some " + rangeLit(found.Offset, found.Length) + ")"
+		}
+		results = append(results, res{alg, found, why})
+	}
+	lit := fmt.Sprintf("CDigestRefs %s %s %s", gal.U(bpmAddr+first), gal.List(shape), gal.List(obs))
+	idx := ctx.Add("pcr0-digest-refs", lit, map[string]interface{}{"op": "MeasurePCR0DATA.Actions/ibbDigest", "image": r.im.name,
+		"digest_list": shapeTxt, "first_entry_addr": bpmAddr + first}, len(entries) > 0)
+	for _, x := range results {
+		var want *digestEntry
+		for j := range entries {
+			if entries[j].alg == x.alg {
+				want = &entries[j]
+				break
+			}
+		}
+		switch {
+		case x.why != "":
+			ctx.OracleFail(idx, "PCR0_DATA ibbDigest: "+x.why, site, in(x.alg))
+		case x.rg == nil && want == nil:
+			ctx.OracleOK() // nothing to measure, nothing referenced
+		case x.rg == nil:
+			// the property speaks about the ranges that ARE reported
+			ctx.Count("pcr0digests-present-but-not-measured")
+		case want == nil:
+			ctx.OracleFail(idx, fmt.Sprintf("PCR0_DATA ibbDigest for algorithm %#x references [%#x+%#x], but the BPM's digest list %v has no entry of that algorithm",
+				x.alg, x.rg.Offset, x.rg.Length, shapeTxt), site, in(x.alg))
+		default:
+			wantAddr := bpmAddr + want.off
+			if x.rg.Offset == wantAddr && x.rg.Length == want.len {
+				ctx.OracleOK()
+				ctx.Count("oracle-ok:PCR0_DATA ibbDigest place")
+				break
+			}
+			ctx.OracleFail(idx, fmt.Sprintf("PCR0_DATA ibbDigest for algorithm %#x references address %#x+%#x (image offset %#x); the hash buffer of the first entry with that algorithm in the BPM's digest list %v is at %#x+%#x (image offset %#x)",
+				x.alg, x.rg.Offset, x.rg.Length, x.rg.Offset-base, shapeTxt, wantAddr, want.len, wantAddr-base), site, in(x.alg))
+		}
 	}
 }
